@@ -22,14 +22,21 @@ type PItem struct {
 	Txt string
 	Num int64
 	Str string
+	// Skey is the object's key in the string-keyed variant of the schema (cursors are derived from the key)
+	Skey string
 }
+
+// strKeys is set while the string-keyed schema is in use: id -> key
+var strKeys map[int64]string
 
 var current []PItem // the list served by the fixture (set per case; executions are sequential)
 
 var filterImpls = []string{"t", "tx", "tb", "tf1", "tf0", "s"}
 var sortImpls = []string{"num", "numx", "numb", "numf1", "numf0", "str"}
 
-func buildSchema() *graphql.Schema {
+func buildSchema() *graphql.Schema { return buildSchemaKeyed("id") }
+
+func buildSchemaKeyed(key string) *graphql.Schema {
 	s := schemabuilder.NewSchema()
 	txt := func(i PItem) string { return i.Txt }
 	txtE := func(i PItem) (string, error) { return i.Txt, nil }
@@ -74,7 +81,7 @@ func buildSchema() *graphql.Schema {
 		schemabuilder.BatchSortFieldWithFallback("numf0", numB, numE, no),
 		schemabuilder.SortField("str", func(ctx context.Context, i PItem) string { return i.Str }),
 	)
-	s.Object("PItem", PItem{}).Key("id")
+	s.Object("PItem", PItem{}).Key(key)
 	s.Mutation().FieldFunc("noop", func() bool { return true })
 	return s.MustBuild()
 }
@@ -135,7 +142,12 @@ type page struct {
 	start, end       string
 }
 
-func cursorOf(id int64) string { return base64.StdEncoding.EncodeToString([]byte(fmt.Sprint(id))) }
+func cursorOf(id int64) string {
+	if strKeys != nil {
+		return base64.StdEncoding.EncodeToString([]byte(strKeys[id]))
+	}
+	return base64.StdEncoding.EncodeToString([]byte(fmt.Sprint(id)))
+}
 
 func exec(schema *graphql.Schema, p params) (pg page, err error) {
 	var res interface{}
@@ -270,11 +282,11 @@ func str(v string) *string { return &v }
 
 var dataSets = [][]PItem{
 	{},
-	{{5, "apple", 1, "x"}},
-	{{3, "apple", 2, "b"}, {1, "bapple", 1, "a"}, {2, "cherry", 2, "b"}},
-	{{10, "apple", 3, "c"}, {20, "grape", 1, "a"}, {30, "Apple pie", 3, "a"}, {40, "fig", 2, "c"}},
-	{{4, "app", 1, "m"}, {8, "bap", 1, "m"}, {15, "cap", 1, "m"}, {16, "dap", 1, "m"}, {23, "eel", 1, "m"}},
-	{{9, "zapp", 5, "e"}, {7, "yapp", 4, "d"}, {5, "x", 3, "c"}, {3, "wapp", 2, "b"}, {1, "v", 1, "a"}},
+	{{5, "apple", 1, "x", ""}},
+	{{3, "apple", 2, "b", ""}, {1, "bapple", 1, "a", ""}, {2, "cherry", 2, "b", ""}},
+	{{10, "apple", 3, "c", ""}, {20, "grape", 1, "a", ""}, {30, "Apple pie", 3, "a", ""}, {40, "fig", 2, "c", ""}},
+	{{4, "app", 1, "m", ""}, {8, "bap", 1, "m", ""}, {15, "cap", 1, "m", ""}, {16, "dap", 1, "m", ""}, {23, "eel", 1, "m", ""}},
+	{{9, "zapp", 5, "e", ""}, {7, "yapp", 4, "d", ""}, {5, "x", 3, "c", ""}, {3, "wapp", 2, "b", ""}, {1, "v", 1, "a", ""}},
 }
 
 // a longer list with many sort ties: Go's sort.Slice is only accidentally stable below 12 elements
@@ -447,10 +459,55 @@ func run(rp *explore.Report, tier string) {
 			}
 		}
 	}
+	// string keys, one of them empty (its cursor is the empty string)
+	sschema := buildSchemaKeyed("skey")
+	for _, items := range [][]PItem{
+		{{1, "apple", 1, "x", "b"}, {2, "apricot", 2, "y", ""}, {3, "plum", 2, "z", "c"}, {4, "pear", 1, "x", "d"}, {5, "fig", 3, "y", "e"}},
+		{{1, "apple", 1, "x", ""}, {2, "apricot", 2, "y", "k"}},
+		{{1, "apple", 1, "x", "k"}, {2, "apricot", 2, "y", "m"}, {3, "plum", 3, "z", ""}},
+	} {
+		strKeys = map[int64]string{}
+		for _, it := range items {
+			strKeys[it.Id] = it.Skey
+		}
+		saved := schema
+		schema = sschema
+		n := len(items)
+		for _, base := range []params{{}, {sortBy: "num", desc: true}, {filterText: "ap"}} {
+			class := fmt.Sprintf("string-keys/filter=%s/sort=%s", base.filterText, base.sortBy)
+			for size := 1; size <= n+1; size++ {
+				walk(items, base, size, true, class)
+				walk(items, base, size, false, class)
+			}
+			var cur []*string
+			cur = append(cur, nil)
+			for _, it := range items {
+				cur = append(cur, str(cursorOf(it.Id)))
+			}
+			for _, a := range cur {
+				for _, b := range cur {
+					for lim := -1; lim <= n; lim++ {
+						p := base
+						p.after, p.before = a, b
+						if lim >= 0 {
+							p.first = i64(int64(lim))
+						}
+						checkPage(items, p, class+"/first")
+						if lim >= 0 {
+							p.first, p.last = nil, i64(int64(lim))
+							checkPage(items, p, class+"/last")
+						}
+					}
+				}
+			}
+		}
+		schema = saved
+		strKeys = nil
+	}
 	rp.AddOutcome(fmt.Sprintf("datasets=%d filters=%d sorts=%d", len(dataSets), len(filters), len(sorts)))
 }
 
 func init() {
 	reg.Register(&reg.Harness{Property: "C11", Name: "c11/pagination", Level: "exploration", Run: run,
-		Rule: "6 lists (n<=5, unordered unique keys, sort ties, mixed-case texts) x filter {none, hit, miss, second field} x filter implementation {plain, expensive, batch, batch+fallback on/off} x combinations of two or three filter fields of different implementations over two columns (elements matching through only one of them) x sort {none, int asc/desc, string asc/desc} x sort implementation (same five); forward and backward walks for every page size 1..n+1 must visit exactly the reference list (filter + stable sort) once, in order; single pages for every (after, before) in (cursors + unknown + absent)^2 x first/last in {absent,0..n+1}: totalCount, page content, hasNextPage/hasPrevPage per the property's wording, start/end and edge cursors"})
+		Rule: "6 lists (n<=5, unordered unique keys, sort ties, mixed-case texts) and 3 string-keyed lists in which one key is the empty string x filter {none, hit, miss, second field} x filter implementation {plain, expensive, batch, batch+fallback on/off} x combinations of two or three filter fields of different implementations over two columns (elements matching through only one of them) x sort {none, int asc/desc, string asc/desc} x sort implementation (same five); forward and backward walks for every page size 1..n+1 must visit exactly the reference list (filter + stable sort) once, in order; single pages for every (after, before) in (cursors + unknown + absent)^2 x first/last in {absent,0..n+1}: totalCount, page content, hasNextPage/hasPrevPage per the property's wording, start/end and edge cursors"})
 }
